@@ -7,10 +7,12 @@ import (
 	"os/exec"
 	"path/filepath"
 	"sort"
+	"strings"
 
 	"github.com/akalin/gopar/par2"
 
 	"verifharness/internal/core"
+	"verifharness/internal/ref/par2rw"
 	"verifharness/internal/scen"
 )
 
@@ -71,6 +73,11 @@ func p2Cases(id, tier string, seed int64, n int) []core.Case {
 				// a recovery file with one damaged packet: Verify either
 				// refuses or must still count every intact block
 				kind = "corrupt-volume"
+			}
+			if id == "C03" && i%20 == 11 {
+				// an extra recovery file with valid checksums and the set's own ID
+				// whose recovery packet is not a block of this set
+				kind = "bogus-volume"
 			}
 		}
 		cs = append(cs, core.MkCase(fmt.Sprintf("%s-%d", kind, i), p2ScenParams{Seed: r.Int63(), Kind: kind}))
@@ -196,7 +203,7 @@ func buildP2Scenario(r *core.R, p p2ScenParams) *p2Scenario {
 	}
 	g := []int{1, 2, 3, 7, 16, 64}[rng.Intn(6)]
 	// index base names include ones ending in characters of ".par2"
-	baseName := []string{"set", "data", "backup", "set2", "extra.", "par2", "a.b", "vol", "p"}[rng.Intn(9)]
+	baseName := []string{"set", "data", "backup", "set2", "extra.", "par2", "a.b", "vol", "p", "backup 100%", "my%20set", "%d%s%"}[rng.Intn(12)]
 	if p.Kind == "fixed" {
 		baseName = "set"
 	}
@@ -298,6 +305,43 @@ func buildP2Scenario(r *core.R, p p2ScenParams) *p2Scenario {
 				sc.corruptVolume = filepath.Base(v)
 			}
 		}
+	case p.Kind == "bogus-volume":
+		// One real volume is lost; in its place there is a file without a main
+		// packet whose recovery packet carries the set ID and a valid packet
+		// hash but is no block of this set: wrong size, or an exponent beyond
+		// the 16-bit range that aliases the lost block.
+		lostExp := uint32(0)
+		if len(vols) > 0 {
+			v := vols[rng.Intn(len(vols))]
+			if b, err := os.ReadFile(v); err == nil {
+				for _, pk := range par2rw.ParseLenient(b) {
+					if pk.Type == par2rw.TypeRecv {
+						if rv, err := par2rw.DecodeRecv(pk.Body); err == nil {
+							lostExp = rv.Exp
+							break
+						}
+					}
+				}
+			}
+			os.Remove(v)
+			sc.volsLost++
+		}
+		s := env.set.SliceSize
+		var rv par2rw.Recv
+		switch rng.Intn(4) {
+		case 0:
+			rv = par2rw.Recv{Exp: lostExp, Data: scen.Garbage(rng, s+4)}
+		case 1:
+			rv = par2rw.Recv{Exp: lostExp, Data: scen.Garbage(rng, maxi(s-4, 0))}
+		case 2:
+			rv = par2rw.Recv{Exp: 0x10000 + lostExp, Data: scen.Garbage(rng, s)}
+		default:
+			rv = par2rw.Recv{Exp: 0xffff0000 | lostExp, Data: scen.Garbage(rng, s)}
+		}
+		pk := par2rw.Packet{SetID: env.ref.SetID, Type: par2rw.TypeRecv, Body: rv.Body()}
+		name := strings.TrimSuffix(filepath.Base(env.idx), ".par2") + ".vol900+01.par2"
+		os.WriteFile(filepath.Join(env.dir, name), pk.Bytes(), 0644)
+		sc.corruptVolume = name
 	case p.Kind == "at-capacity":
 		// keep exactly k blocks if possible (volumes hold 1,2,4,.. blocks)
 		k := st.Set.TotalSlices() - len(st.Witnessed())
